@@ -240,12 +240,14 @@ func (smpStateExpect1) startAuthenticate(c *Conversation, question string, mutua
 	}
 
 	// Using ssid here should always be safe - we can't be in an encrypted state without having gone through the AKE
-	c.smp.secret = generateSMPSecret(c.ourCurrentKey.PublicKey().Fingerprint(), c.theirKey.Fingerprint(), c.ssid[:], mutualSecret, c.version)
+	secret := generateSMPSecret(c.ourCurrentKey.PublicKey().Fingerprint(), c.theirKey.Fingerprint(), c.ssid[:], mutualSecret, c.version)
 
 	s1, err := c.generateSMP1()
 	if err != nil {
+		// the call is refused: the secret of a run that may be in progress stays what it is
 		return nil, errShortRandomRead
 	}
+	c.smp.secret = secret
 
 	if question != "" {
 		s1.msg.hasQuestion = true
